@@ -645,4 +645,299 @@ Proof.
       rewrite Nat.eqb_refl. cbn [map tl option_map]. f_equal. apply sub_all_T; auto.
       rewrite List.Forall_forall in *. auto.
 Qed.
+
+(* ---------- internal transitions: cut, call, drop, split, print ---------- *)
+Lemma internal_effect_T md Δ rs s self p : typed Δ ∅ None rs s (pr_body0 p) ->
+  neres' (internal_effect md F self (np' p)) = neres' (internal_effect md F self p).
+Proof.
+  intros Hty. unfold internal_effect. cbn [np' pr_body0].
+  destruct (pr_body0 p) eqn:Eb; cbn [nf']; try reflexivity.
+  - (* new *) destruct (head_new D F teq _ _ _ _ _ _ _ Hty) as (Hx & Hxn & Hxk).
+    unfold fresh_chan. cbn [pr_provs pr_body0 pr_next]. eff_eq. cbn [map].
+    unfold nspawn'. cbn [sp_provs sp_body map]. rewrite (proj1 nf'_idem). do 4 f_equal.
+    apply subst_B_congr; auto; [apply nos_nf'; auto | apply nf'_idem].
+  - (* split *) destruct (head_split D F teq _ _ _ _ _ _ _ _ Hty) as (Hx & Hxn & Hxk & Hy & Hyn & Hyk).
+    unfold fresh_chan. cbn [pr_provs pr_body0 pr_next]. rewrite nn'_nty, nn'_pol. eff_eq. cbn [map].
+    unfold nspawn'. cbn [sp_provs sp_body map nf']. rewrite !nn'_idem. do 4 f_equal.
+    set (c1 := mkName (ident x) false (pol from) (nty from) (Some (self ++ [pr_next p]))).
+    set (c2 := mkName (ident y) false (pol from) (nty from) (Some (self ++ [S (pr_next p)]))).
+    apply subst_B_congr; auto.
+    + apply nos_subst; [reflexivity | apply nos_nf'; auto].
+    + apply nos_subst; [reflexivity | auto].
+    + apply subst_B_congr; auto; [apply nos_nf'; auto | apply nf'_idem].
+  - (* call *) pose proof (call_body_T _ _ _ _ _ _ _ _ Hty) as E.
+    destruct (call_body F f (map nn' args)) as [b|], (call_body F f args) as [b'|]; cbn [option_map] in E; try discriminate; [|reflexivity].
+    inversion E as [E']. eff_eq. now rewrite E'.
+  - (* drop *) destruct (is_np md); [eff_eq; reflexivity|].
+    unfold droppable_fwd, fresh_chan. cbn [pr_provs pr_body0 pr_next chan]. rewrite nn'_nty, nn'_pol. eff_eq. cbn [map].
+    unfold nspawn'. cbn [sp_provs sp_body map nf']. rewrite !nn'_idem. reflexivity.
+  - (* print *) eff_eq. reflexivity.
+Qed.
+
+(* ---------- what a process does next ---------- *)
+Lemma action_of_T md p : action_of md D (np' p) = naction' (action_of md D p).
+Proof.
+  assert (Es : self_chan (np' p) = self_chan p) by (unfold self_chan, prov0, np'; cbn; destruct (pr_provs p); cbn; [reflexivity | apply nn'_chan]).
+  assert (Em : multi (np' p) = multi p) by (unfold multi, np'; cbn; now rewrite map_length).
+  assert (En : self_name_of (np' p) = nn' (self_name_of p)) by (unfold self_name_of, prov0, np'; cbn; destruct (pr_provs p); reflexivity).
+  assert (Ef : forall n, fwd_polarity D (nn' n) = fwd_polarity D n) by (intros n; unfold fwd_polarity; now rewrite nn'_nty).
+  unfold action_of, send_on, recv_on, internal. cbn [np' pr_body0]. fold (np' p). rewrite ?Em, ?Es.
+  destruct (pr_body0 p); cbn [nf']; rewrite ?nn'_is_self, ?nn'_chan, ?Ef, ?En;
+    repeat match goal with
+    | |- context [if ?b then _ else _] => destruct b
+    | |- context [match ?x with _ => _ end] => destruct x
+    end; reflexivity.
+Qed.
+
+(* ---------- duplication ---------- *)
+Definition frow (self : pid) (base : nat) (fn : name) (n : nat) : list name :=
+  map (fun i => mkName (ident fn) false (pol fn) (nty fn) (Some (self ++ [base + i]))) (seq 0 n).
+Fixpoint fmat (self : pid) (base : nat) (fns : list name) (n : nat) : list (list name) :=
+  match fns with [] => [] | fn :: r => frow self base fn n :: fmat self (base + n) r n end.
+
+Lemma fresh_row_spec self fn : forall n p,
+  fresh_row self p fn n = (frow self (pr_next p) fn n, Proc (pr_provs p) (pr_body0 p) (pr_next p + n)).
+Proof.
+  induction n as [|n IH]; intros p; cbn [fresh_row].
+  - unfold frow. cbn. rewrite Nat.add_0_r. destruct p; reflexivity.
+  - unfold fresh_chan. rewrite IH. cbn [pr_next pr_provs pr_body0]. unfold frow. cbn [seq map]. rewrite Nat.add_0_r.
+    rewrite <- seq_shift, map_map.
+    replace (S (pr_next p) + n)%nat with (pr_next p + S n)%nat by lia. f_equal. f_equal.
+    apply map_ext. intros i. replace (S (pr_next p) + i)%nat with (pr_next p + S i)%nat by lia. reflexivity.
+Qed.
+Lemma fresh_matrix_spec self n : forall fns p,
+  fresh_matrix self p fns n = (fmat self (pr_next p) fns n, Proc (pr_provs p) (pr_body0 p) (pr_next p + length fns * n)).
+Proof.
+  induction fns as [|fn fns IH]; intros p; cbn [fresh_matrix fmat length].
+  - cbn. rewrite Nat.add_0_r. destruct p; reflexivity.
+  - rewrite fresh_row_spec, IH. cbn [pr_next pr_provs pr_body0].
+    replace (pr_next p + n + length fns * n)%nat with (pr_next p + (n + length fns * n))%nat by lia. reflexivity.
+Qed.
+
+Lemma frow_T self base fn n : map nn' (frow self base (nn' fn) n) = map nn' (frow self base fn n).
+Proof. unfold frow. rewrite !map_map. apply map_ext. intros i. rewrite nn'_pol, nn'_nty. reflexivity. Qed.
+Lemma frow_init self base fn n : Forall (fun c => initialized c = true) (frow self base fn n).
+Proof. unfold frow. apply List.Forall_forall. intros c Hc. apply in_map_iff in Hc. destruct Hc as (i & <- & _). reflexivity. Qed.
+Lemma frow_cids self base fn n : cids_of (frow self base (nn' fn) n) = cids_of (frow self base fn n).
+Proof. unfold frow, cids_of. rewrite !flat_map_concat_map, !map_map. reflexivity. Qed.
+
+Lemma subst_A_congr fn c c' X X' : initialized fn = true -> initialized c = true -> initialized c' = true ->
+  nn' c' = nn' c -> nf' X = nf' X' -> nf' (subst (nn' fn) c' X) = nf' (subst fn c X').
+Proof.
+  intros Hf Hc Hc' Ec EX.
+  rewrite <- (proj1 (subst_A fn c Hf Hc) X').
+  assert (Hf' : initialized (nn' fn) = true) by now rewrite nn'_initialized.
+  rewrite <- (proj1 (subst_A (nn' fn) c' Hf' Hc') X). now rewrite nn'_idem, Ec, EX.
+Qed.
+
+Lemma nth_error_seq' : forall n st i, nth_error (seq st n) i = if (i <? n)%nat then Some (st + i)%nat else None.
+Proof.
+  induction n as [|n IH]; intros st i; cbn [seq]; [destruct i; reflexivity|].
+  destruct i as [|i]; cbn [nth_error]; [now rewrite Nat.add_0_r|]. rewrite IH.
+  change (S i <? S n)%nat with (i <? n)%nat. destruct (i <? n)%nat; [f_equal; lia | reflexivity].
+Qed.
+Lemma nth_frow self base fn n i : nth_error (frow self base fn n) i =
+  if (i <? n)%nat then Some (mkName (ident fn) false (pol fn) (nty fn) (Some (self ++ [base + i]))) else None.
+Proof. unfold frow. rewrite nth_error_map, nth_error_seq'. destruct (i <? n)%nat; reflexivity. Qed.
+
+Lemma subst_col_T self n i : forall fns base b b', Forall (fun fn => initialized fn = true) fns -> nf' b = nf' b' ->
+  nf' (subst_col (map nn' fns) (fmat self base (map nn' fns) n) i b) = nf' (subst_col fns (fmat self base fns n) i b').
+Proof.
+  induction fns as [|fn fns IH]; intros base b b' Hf E; [exact E|]. inversion Hf; subst.
+  cbn [map fmat subst_col]. apply IH; [assumption|]. rewrite !nth_frow.
+  destruct (i <? n)%nat; [|exact E]. apply subst_A_congr; auto. now rewrite nn'_pol, nn'_nty.
+Qed.
+
+Lemma fmat_cids self n : forall fns base, flat_map cids_of (fmat self base (map nn' fns) n) = flat_map cids_of (fmat self base fns n).
+Proof. induction fns as [|fn fns IH]; intros base; cbn [map fmat flat_map]; [reflexivity|]. now rewrite frow_cids, IH. Qed.
+
+Lemma dup_effect_T Δ rs s self p : typed Δ ∅ None rs s (pr_body0 p) ->
+  neres' (dup_effect self (np' p)) = neres' (dup_effect self p).
+Proof.
+  intros Hty. unfold dup_effect. cbn [np' pr_provs pr_body0]. rewrite map_length.
+  destruct (length (pr_provs p) =? 1)%nat; [reflexivity|].
+  rewrite (proj1 free_names_nf'). fold (np' p). rewrite !fresh_matrix_spec. cbn [np' pr_next].
+  assert (Hfn : Forall (fun fn => initialized fn = true) (free_names (pr_body0 p))).
+  { apply List.Forall_forall. intros fn Hin. destruct (free_names_closed D F teq _ _ _ _ _ Hty Hin) as (t & Hs & _ & Hc).
+    unfold initialized. destruct (chan fn); [reflexivity|]. destruct Hc as [_ (t' & Hl & _)]. rewrite lookup_empty in Hl. discriminate. }
+  set (fns := free_names (pr_body0 p)) in *. set (n := length (pr_provs p)).
+  unfold neres', neff'. cbn [e_after e_spawn e_newch e_close e_out nafter']. f_equal. f_equal.
+  - rewrite !map_app. f_equal.
+    + change (map nn' (pr_provs p)) with (nn' <$> pr_provs p). rewrite imap_fmap.
+      change (map nspawn' ?l) with (nspawn' <$> l). rewrite !fmap_imap. apply imap_ext. intros i pr _. cbn.
+      unfold nspawn'. cbn [sp_provs sp_body map]. rewrite nn'_idem. f_equal.
+      apply (subst_col_T self n i fns (pr_next p)); [exact Hfn | apply nf'_idem].
+    + generalize (pr_next p). clear Hfn. induction fns as [|fn fns IH]; intros base; cbn [map fmat combine]; [reflexivity|].
+      rewrite IH. f_equal. unfold nspawn'. cbn [sp_provs sp_body nf']. rewrite nn'_nty, !nn'_idem, frow_T. reflexivity.
+  - apply fmat_cids.
+Qed.
+
+(* ---------- messages ---------- *)
+Lemma chan_ty_uself Δ n t : chan_ty teq Δ n t -> uself n = false.
+Proof. intros H. apply uself_nonself. eapply client_nonself; eauto. Qed.
+Lemma prov_ty_uself Δ n t : prov_ty teq Δ n t -> uself n = false.
+Proof. intros (c & t' & Hc & _). apply uself_init. unfold initialized. now rewrite Hc. Qed.
+
+Lemma msg_typed_mok Δ k m : msg_typed D teq Δ k m -> mok m.
+Proof.
+  intros (T & _ & H). unfold mok. destruct (m_rule m); try exact I;
+    repeat match goal with H : exists _, _ |- _ => destruct H | H : _ /\ _ |- _ => destruct H end;
+    repeat split; eauto using chan_ty_uself, prov_ty_uself.
+Qed.
+Lemma mok_zero : mok zero_msg. Proof. split; reflexivity. Qed.
+Lemma nm'_idem m : nm' (nm' m) = nm' m.
+Proof. unfold nm'. cbn. now rewrite !nn'_idem, map_nn'_idem. Qed.
+Lemma mok_nm' m : mok (nm' m) <-> mok m.
+Proof. unfold mok, nm'. cbn [m_rule m_c1 m_c2]. rewrite !uself_nn'. reflexivity. Qed.
+
+Ltac selfs :=
+  repeat match goal with
+  | H : prov_name None _ ?n |- context [is_self ?n] => rewrite (prov_none _ _ H)
+  | H : client_ty _ _ _ _ ?n _ |- context [is_self ?n] => rewrite (client_nonself _ _ _ _ _ _ H)
+  end; cbn [negb].
+
+(* the message a typed process sends *)
+Lemma action_mok md Δ rs s p k m : typed Δ ∅ None rs s (pr_body0 p) ->
+  Forall (fun n => initialized n = true) (pr_provs p) ->
+  action_of md D p = ASend k m -> mok m.
+Proof.
+  intros Hty Hpr. assert (Hs : uself (self_name_of p) = false).
+  { unfold self_name_of, prov0. destruct (pr_provs p) as [|n l]; cbn; [reflexivity|]. inversion Hpr; subst. now apply uself_init. }
+  unfold action_of, send_on, recv_on, internal. destruct (pr_body0 p) eqn:Eb;
+    inversion Hty; subst; selfs;
+    repeat match goal with
+    | |- context [if ?b then _ else _] => destruct b
+    | |- context [match ?x with _ => _ end] => destruct x
+    end; intros E; try discriminate E; inversion E; subst; unfold mok; cbn [m_rule m_c1 m_c2];
+    repeat split; eauto using uself_nonself, client_nonself.
+Qed.
+
+(* ---------- applying an effect ---------- *)
+Lemma add_spawns_T self : forall ss next m,
+  add_spawns self next (map nspawn' ss) (np' <$> m) =
+  (np' <$> fst (add_spawns self next ss m), snd (add_spawns self next ss m)).
+Proof.
+  induction ss as [|s0 ss IH]; intros next m; cbn [map add_spawns]; [reflexivity|].
+  change (Proc (sp_provs (nspawn' s0)) (sp_body (nspawn' s0)) 0) with (np' (Proc (sp_provs s0) (sp_body s0) 0)).
+  rewrite <- fmap_insert. apply IH.
+Qed.
+Lemma apply_effect_T c self p e :
+  apply_effect (ncfg' c) self (np' p) (neff' e) = ncfg' (apply_effect c self p e).
+Proof.
+  unfold apply_effect. cbn [ncfg' procs chans out neff' e_after e_spawn e_newch e_close e_out].
+  assert (Eb : match nafter' (e_after e) with Continue p' => pr_next p' | Finish => pr_next (np' p) end =
+               match e_after e with Continue p' => pr_next p' | Finish => pr_next p end)
+    by (destruct (e_after e); reflexivity).
+  rewrite Eb. clear Eb. rewrite add_spawns_T.
+  destruct (add_spawns self _ (e_spawn e) (procs c)) as [pm next1]. cbn [fst snd].
+  unfold ncfg'. cbn [procs chans out]. f_equal.
+  - destruct (e_after e) as [p'|]; cbn [nafter'].
+    + rewrite fmap_insert. reflexivity.
+    + now rewrite fmap_delete.
+  - assert (E1 : forall l, foldr (fun ch m => <[ch := empty_chan]> m) (nch' <$> chans c) l =
+                           nch' <$> foldr (fun ch m => <[ch := empty_chan]> m) (chans c) l).
+    { induction l as [|ch l IH]; cbn [foldr]; [reflexivity|]. rewrite IH, fmap_insert. reflexivity. }
+    rewrite E1. generalize (foldr (fun ch m => <[ch := empty_chan]> m) (chans c) (e_newch e)) as cm. intros cm.
+    induction (e_close e) as [|ch l IH]; cbn [foldr]; [reflexivity|]. rewrite IH, lookup_fmap.
+    destruct (foldr _ cm l !! ch) as [st|]; cbn [fmap option_fmap option_map]; [|reflexivity].
+    now rewrite fmap_insert.
+Qed.
+Lemma ncfg'_idem c : ncfg' (ncfg' c) = ncfg' c.
+Proof.
+  unfold ncfg'. cbn [procs chans out]. f_equal.
+  - rewrite <- map_fmap_compose. apply map_fmap_ext. intros i x _. apply np'_idem.
+  - rewrite <- map_fmap_compose. apply map_fmap_ext. intros i [b cl] _. unfold nch'. cbn. f_equal. destruct b; cbn; [now rewrite nm'_idem | reflexivity].
+Qed.
+Lemma neff'_idem e : neff' (neff' e) = neff' e.
+Proof.
+  unfold neff'. cbn. f_equal.
+  - destruct (e_after e); cbn; [now rewrite np'_idem | reflexivity].
+  - rewrite map_map. apply map_ext. intros s0. unfold nspawn'. cbn. now rewrite map_nn'_idem, (proj1 nf'_idem).
+Qed.
+
+Lemma eff_step_T c self p x x' : neres' x' = neres' x ->
+  nsres' (eff_step (ncfg' c) self (np' p) x') = nsres' (eff_step c self p x).
+Proof.
+  intros E. destruct x' as [e'|w'], x as [e|w]; cbn [neres'] in E; try discriminate; cbn [eff_step nsres']; [|congruence].
+  assert (E' : neff' e' = neff' e) by congruence. f_equal. rewrite <- !apply_effect_T. now rewrite ncfg'_idem, np'_idem, E'.
+Qed.
+
+Lemma put_msg_T c ch st m : put_msg (ncfg' c) ch (nch' st) (option_map nm' m) = ncfg' (put_msg c ch st m).
+Proof. unfold put_msg, ncfg'. cbn [procs chans out]. rewrite fmap_insert. reflexivity. Qed.
+Lemma del_proc_T c p : del_proc (ncfg' c) p = ncfg' (del_proc c p).
+Proof. unfold del_proc, ncfg'. cbn [procs chans out]. now rewrite fmap_delete. Qed.
+
+(* ---------------------------------------------------------------- one step *)
+Lemma polls_control_T md p : polls_control md D (np' p) = polls_control md D p.
+Proof.
+  unfold polls_control. rewrite action_of_T. destruct (action_of md D p); cbn [naction']; try reflexivity.
+  cbn [np' pr_body0]. destruct (pr_body0 p); reflexivity.
+Qed.
+Lemma self_chan_T p : self_chan (np' p) = self_chan p.
+Proof. unfold self_chan, prov0, np'. cbn. destruct (pr_provs p); cbn; [reflexivity | apply nn'_chan]. Qed.
+
+Lemma proc_facts Δ p : proc_typed D F teq Δ p ->
+  (exists rs s, typed Δ ∅ None rs s (pr_body0 p)) /\ Forall (fun n => initialized n = true) (pr_provs p).
+Proof.
+  intros (s & rs & _ & Hpr & Hty). split; [eauto|].
+  eapply List.Forall_impl; [|exact Hpr]. intros n (c & t & Hc & _). unfold initialized. now rewrite Hc.
+Qed.
+
+Theorem stepT_erase md Δ c ch : cfg_typed D F teq Δ c ->
+  nsres' (Runtime.step md D F (ncfg' c) ch) = nsres' (Runtime.step md D F c ch).
+Proof.
+  intros [Hprocs Hmsgs _ _]. unfold Runtime.step. destruct ch as [self|s0 r0|f0 t0].
+  - cbn [ncfg' procs chans]. rewrite lookup_fmap. destruct (procs c !! self) as [p|] eqn:Ep; cbn [fmap option_fmap option_map]; [|reflexivity].
+    destruct (proc_facts Δ p (Hprocs _ _ Ep)) as [(rs & s & Hty) Hpr].
+    rewrite action_of_T. destruct (action_of md D p) as [| |k m|k| |k provs|w] eqn:Ea; cbn [naction']; try reflexivity.
+    + fold (ncfg' c). apply eff_step_T. eapply dup_effect_T; eauto.
+    + fold (ncfg' c). apply eff_step_T. eapply internal_effect_T; eauto.
+    + rewrite lookup_fmap. destruct (chans c !! k) as [st|]; cbn [fmap option_fmap option_map]; [|reflexivity].
+      cbn [nch' ch_closed ch_buf]. destruct (ch_closed st); [reflexivity|].
+      destruct md; try (destruct (ch_buf st); reflexivity).
+      destruct (ch_buf st); cbn [option_map]; [reflexivity|].
+      cbn [nsres']. f_equal. fold (nch' st). change (Some (nm' m)) with (option_map nm' (Some m)).
+      fold (ncfg' c). rewrite put_msg_T, del_proc_T. apply ncfg'_idem.
+    + rewrite lookup_fmap. destruct (chans c !! k) as [st|] eqn:Ek; cbn [fmap option_fmap option_map]; [|reflexivity].
+      cbn [nch' ch_closed ch_buf]. destruct (ch_buf st) as [m|] eqn:Eb; cbn [option_map].
+      * fold (nch' st). change (@None msg) with (option_map nm' None). fold (ncfg' c). rewrite put_msg_T.
+        apply eff_step_T. eapply on_message_T; eauto. eapply msg_typed_mok. eapply Hmsgs; eauto.
+      * destruct (ch_closed st); [|reflexivity]. fold (ncfg' c). apply eff_step_T.
+        change zero_msg with (nm' zero_msg) at 1. eapply on_message_T; eauto. apply mok_zero.
+  - destruct md; [reflexivity| |].
+    all: destruct (bool_decide (s0 = r0)); [reflexivity|];
+      cbn [ncfg' procs chans]; rewrite !lookup_fmap;
+      destruct (procs c !! s0) as [ps|] eqn:Es; cbn [fmap option_fmap option_map]; [|reflexivity];
+      destruct (procs c !! r0) as [pr|] eqn:Er; cbn [fmap option_fmap option_map]; [|reflexivity];
+      destruct (proc_facts Δ ps (Hprocs _ _ Es)) as [(rs1 & s1 & Hty1) Hpr1];
+      destruct (proc_facts Δ pr (Hprocs _ _ Er)) as [(rs2 & s2 & Hty2) Hpr2];
+      rewrite !action_of_T;
+      destruct (action_of _ D ps) as [| |k m|k| |k provs|w] eqn:Ea; cbn [naction']; try reflexivity;
+      destruct (action_of _ D pr) as [| |k' m'|k'| |k' provs'|w']; cbn [naction']; try reflexivity;
+      destruct (bool_decide (k = k')); [|reflexivity];
+      rewrite lookup_fmap; destruct (chans c !! k) as [st|]; cbn [fmap option_fmap option_map]; [|reflexivity];
+      cbn [nch' ch_closed]; destruct (ch_closed st); [reflexivity|];
+      fold (ncfg' c); rewrite del_proc_T; apply eff_step_T; eapply on_message_T; [exact Hty2|];
+      exact (action_mok _ _ _ _ ps k m Hty1 Hpr1 Ea).
+  - destruct (negb (is_np md) || bool_decide (f0 = t0)); [reflexivity|].
+    cbn [ncfg' procs chans]. rewrite !lookup_fmap.
+    destruct (procs c !! f0) as [pf|]; cbn [fmap option_fmap option_map]; [|reflexivity].
+    destruct (procs c !! t0) as [pt|]; cbn [fmap option_fmap option_map]; [|reflexivity].
+    rewrite action_of_T, self_chan_T, polls_control_T.
+    destruct (action_of md D pf) as [| |k m|k| |k provs|w]; cbn [naction']; try reflexivity.
+    destruct (self_chan pt) as [k'|]; [|reflexivity].
+    destruct (bool_decide (k = k') && polls_control md D pt); [|reflexivity].
+    cbn [nsres']. f_equal. fold (ncfg' c). rewrite del_proc_T.
+    rewrite <- !apply_effect_T. rewrite ncfg'_idem, np'_idem. f_equal.
+    unfold neff'. cbn [e_after e_spawn e_newch e_close e_out nafter' map]. f_equal.
+    + f_equal. unfold set_provs_body, np'. cbn [pr_provs pr_body0 pr_next]. rewrite (proj1 nf'_idem). f_equal.
+      rewrite !map_app, map_nn'_idem. f_equal. destruct (pr_provs pt); cbn [tl map]; [reflexivity | now rewrite map_nn'_idem].
+    + cbn [np' pr_provs]. destruct (pr_provs pt) as [|n l]; cbn; [reflexivity | now rewrite nn'_chan].
+Qed.
+
+(* two typed configurations that differ only in identifiers of initialised / self names take the same
+   step up to such identifiers *)
+Corollary stepT_sim md Δ Δ' c c' ch : cfg_typed D F teq Δ c -> cfg_typed D F teq Δ' c' -> cfgT_sim c c' ->
+  nsres' (Runtime.step md D F c ch) = nsres' (Runtime.step md D F c' ch).
+Proof. intros H1 H2 E. rewrite <- (stepT_erase md Δ c ch H1), <- (stepT_erase md Δ' c' ch H2). unfold cfgT_sim in E. now rewrite E. Qed.
 End Trans.
